@@ -38,9 +38,28 @@ fn sequence(report: &mut Report, seed: u64, n: u64, steps: usize) -> Option<(Str
     cache.verif_set_watermarks(high, low);
     let mut model: BTreeMap<Vec<u8>, Ref> = BTreeMap::new();
     let nkeys = 20 + rng.usize_below(200);
+    // half of the runs use keys crafted to share a handful of the cache's 16384 buckets, so that a bucket
+    // holds several entries and an eviction pass has to walk inside buckets (found by brute force with the
+    // cache's own hash function, which is public)
+    let pool: Vec<Vec<u8>> = if rng.chance(1, 2) {
+        let buckets: Vec<u32> = (0..rng.range(4, 10)).map(|_| rng.below(16384) as u32).collect();
+        let mut pool = Vec::new();
+        let mut i = 0u64;
+        while pool.len() < nkeys.min(60) && i < 400_000 {
+            let k = format!("cc{n}-{i}").into_bytes();
+            if buckets.contains(&(feoxdb::utils::hash::murmur3_32(&k, 0) % 16384)) {
+                pool.push(k);
+            }
+            i += 1;
+        }
+        report.count("runs_with_colliding_keys", 1);
+        pool
+    } else {
+        (0..nkeys).map(|i| format!("ck-{i:04}").into_bytes()).collect()
+    };
     let mut log: Vec<String> = Vec::new();
     for step in 0..steps {
-        let k = format!("ck-{:04}", rng.usize_below(nkeys)).into_bytes();
+        let k = rng.pick(&pool).clone();
         let before = snapshot(&cache);
         let usage_before = cache.stats().memory_usage;
         let roll = rng.below(100);
